@@ -67,6 +67,13 @@ claim("C09", "other", "term-template rule on the ParsingTable / ParsingIterator 
       "Partial: the arithmetic theorem itself is a paper argument, not machine-checked. Trusted: C02 (each parse consumes exactly size_for(class) >= 1 bytes).",
       "DESIGN.md 5/C09")
 
+claim("C05", "proof", "provenance normal forms of all success outcomes (value origin with error plumbing stripped) + guard facts, compared with the gABI table-location rule; must-pass-through for validate_entsize",
+      "For find_shdrs/find_phdrs, their stream counterparts and section_headers_with_strtab (both parsers) every success outcome is enumerated with its guard: the table is "
+      "data[off .. off + validated_entsize * count] with count = header field, or shdr[0].sh_size / sh_info exactly under the escape value, absent exactly when the offset is 0; "
+      "the string-table index is e_shstrndx or shdr[0].sh_link exactly under SHN_XINDEX. validate_entsize::<T> succeeds on every table-yielding path at the 9 confirmed instances.",
+      "Trusted: C02 (field decoding), C19 (escape constants), value-preservation of checked_mul/checked_add/try_into on success. The 9 entsize instances are a frozen, read-confirmed table (DESIGN.md appendix C).",
+      "DESIGN.md 5/C05")
+
 for pid in ["C01", "C02", "C03", "C04", "C05", "C06", "C07", "C08", "C09", "C10", "C11", "C12", "C13", "C14", "C15", "C16", "C17", "C18", "C20"]:
     if pid not in CLAIMS:
         na(pid, "static rule designed (DESIGN.md section 5) but its checker is not built yet in this revision; not claimed until it runs silent on the tree and fires on control mutants")
